@@ -87,8 +87,12 @@ SPEC = {
         'AITB.POMDP.solveOuter_h0',
         'AITB.POMDP.lsAccept_false_bound',
         'AITB.POMDP.wReserve_room',
+        'AITB.POMDP.wLoopG_false',
+        'AITB.POMDP.witness_repaired_terminates',
+        'AITB.POMDP.wStepG_eq_wStep_of_sound',
+        'AITB.POMDP.witness_shipped_loops_counterexample',
     ],
-    'gen_obligations': ['AITB.POMDP.sites3_match_model', 'AITB.POMDP.rtbss_as_extracted_full', 'AITB.POMDP.rtbss_as_extracted', 'AITB.POMDP.fvn_as_extracted', 'AITB.POMDP.sites_match_model'],
+    'gen_obligations': ['AITB.POMDP.sites3_match_model', 'AITB.POMDP.witness_loop_as_extracted', 'AITB.POMDP.rtbss_as_extracted_full', 'AITB.POMDP.rtbss_as_extracted', 'AITB.POMDP.fvn_as_extracted', 'AITB.POMDP.sites_match_model'],
     'harness': 'harness/c02.cpp',
     'level': 'proof',
     'timeout': {'quick': 600, 'thorough': 3000},
